@@ -377,7 +377,6 @@ func summarisePath(p []string) string {
 // elNoInput handles loops that are not driven by the reader: a small ranking
 // recogniser; anything else must be in the reviewed table.
 var elReviewedNoInput = map[string]string{
-	"eval/method_evaluator.checkAndPropagateArgs|loop#1": "every continue path advances defineArgIdx (directly, or through asteriskDefineProcess/doubleAsteriskDefineProcess which return an index > the one passed in); bound len(sortedDfineArgs) is invariant — read and accepted, not decided by the engine",
 	"eval.(*Def).getChainMethodReturnType|loop#1": "see the entry of the same loop in elReviewed",
 }
 
@@ -582,6 +581,25 @@ func growsOnEveryBackEdge(l *natLoop, ph *ssa.Phi) bool {
 				}
 			}
 			return len(x.Edges) > 0
+		case *ssa.Extract:
+			// result #i of a static module call that is, on every return of the callee,
+			// strictly greater than the parameter that receives a value ≥ the counter
+			call, ok := x.Tuple.(*ssa.Call)
+			if !ok {
+				return false
+			}
+			cal := call.Call.StaticCallee()
+			if cal == nil || len(cal.Blocks) == 0 || cal.Pkg == nil || !inModule(cal.Pkg.Pkg.Path()) {
+				return false
+			}
+			// returns that carry a definite error do not count when the caller leaves on error
+			// before it can come back to the header
+			skipErr := callerLeavesOnError(l, call)
+			for ai, a := range call.Call.Args {
+				if ai < len(cal.Params) && isIntType(cal.Params[ai].Type()) && ge(a, d+1) && resultExceedsParam(cal, x.Index, cal.Params[ai], skipErr) {
+					return true
+				}
+			}
 		}
 		return false
 	}
@@ -613,6 +631,132 @@ func growsOnEveryBackEdge(l *natLoop, ph *ssa.Phi) bool {
 		}
 	}
 	return n > 0
+}
+
+// resultExceedsParam: on every return of fn, result #idx is p plus a positive amount (p + k,
+// or a value at least p that is then increased by a positive constant).
+func resultExceedsParam(fn *ssa.Function, idx int, p *ssa.Parameter, skipErrorReturns bool) bool {
+	n := 0
+	for _, b := range fn.Blocks {
+		rt, ok := b.Instrs[len(b.Instrs)-1].(*ssa.Return)
+		if !ok || idx >= len(rt.Results) {
+			continue
+		}
+		if skipErrorReturns && definiteError(rt.Results[len(rt.Results)-1]) {
+			continue
+		}
+		n++
+		if !exceeds(rt.Results[idx], p, map[ssa.Value]bool{}, 0) {
+			return false
+		}
+	}
+	return n > 0
+}
+
+// definiteError: v is an error value that cannot be nil (built by fmt.Errorf / errors.New).
+func definiteError(v ssa.Value) bool {
+	if !isNamed(v.Type(), "", "error") && v.Type().String() != "error" {
+		return false
+	}
+	switch x := v.(type) {
+	case *ssa.Call:
+		if cal := x.Call.StaticCallee(); cal != nil && cal.Pkg != nil {
+			pp := cal.Pkg.Pkg.Path()
+			return (pp == "fmt" && cal.Name() == "Errorf") || (pp == "errors" && cal.Name() == "New")
+		}
+	case *ssa.MakeInterface:
+		return true
+	}
+	return false
+}
+
+// callerLeavesOnError: the error result of call is tested against nil and the loop header
+// can only be reached again from the error-free side.
+func callerLeavesOnError(l *natLoop, call *ssa.Call) bool {
+	res := call.Call.Signature().Results()
+	if res.Len() == 0 || res.At(res.Len()-1).Type().String() != "error" {
+		return false
+	}
+	for _, ref := range *call.Referrers() {
+		ex, ok := ref.(*ssa.Extract)
+		if !ok || ex.Index != res.Len()-1 {
+			continue
+		}
+		for _, r2 := range *ex.Referrers() {
+			bo, ok := r2.(*ssa.BinOp)
+			if !ok || bo.Op != token.NEQ {
+				continue
+			}
+			k, isC := bo.Y.(*ssa.Const)
+			if !isC || !k.IsNil() {
+				continue
+			}
+			for _, r3 := range *bo.Referrers() {
+				iff, ok := r3.(*ssa.If)
+				if !ok {
+					continue
+				}
+				// the error side must not come back to the header
+				errSide := iff.Block().Succs[0]
+				seen := map[*ssa.BasicBlock]bool{}
+				var back func(b *ssa.BasicBlock) bool
+				back = func(b *ssa.BasicBlock) bool {
+					if b == l.head {
+						return true
+					}
+					if seen[b] || !l.body[b] {
+						return false
+					}
+					seen[b] = true
+					for _, s2 := range b.Succs {
+						if back(s2) {
+							return true
+						}
+					}
+					return false
+				}
+				if !back(errSide) {
+					return true
+				}
+			}
+		}
+	}
+	return false
+}
+
+// exceeds: v > p by shape.
+func exceeds(v ssa.Value, p ssa.Value, assume map[ssa.Value]bool, depth int) bool {
+	if depth > 12 {
+		return false
+	}
+	switch x := v.(type) {
+	case *ssa.BinOp:
+		if x.Op == token.ADD {
+			if k, ok := x.Y.(*ssa.Const); ok {
+				if cv := constVal(k); cv.k == kInt {
+					if cv.i > 0 && atLeast(x.X, p, map[ssa.Value]bool{}, 0) {
+						return true
+					}
+					if cv.i >= 0 {
+						return exceeds(x.X, p, assume, depth+1)
+					}
+				}
+			}
+		}
+	case *ssa.Phi:
+		if assume[x] {
+			return true
+		}
+		assume[x] = true
+		for _, e := range x.Edges {
+			if !exceeds(e, p, assume, depth+1) {
+				delete(assume, x)
+				return false
+			}
+		}
+		return true
+	}
+	return false
 }
 
 // growingCell: every back-edge source is dominated by a block of the loop that stores
